@@ -825,6 +825,8 @@ class Executor:
         if isinstance(v, Poison):
             raise Unsupported('use of an unmergeable value: %s' % v.msg)
         if k == 'e':
+            if isinstance(v, tuple):          # entry k of an array seen through a sparse view
+                return v[step[1]]
             return v.ents[step[1]][1]
         if k == 'f':
             if isinstance(v, tuple):
@@ -859,6 +861,8 @@ class Executor:
     def set_step(self, v, step, newv):
         k = step[0]
         if k == 'e':
+            if isinstance(v, tuple):
+                return v[:step[1]] + (newv,) + v[step[1] + 1:]
             ents = list(v.ents)
             ents[step[1]] = (ents[step[1]][0], newv)
             return Seq(tuple(ents))
@@ -1854,6 +1858,8 @@ class Executor:
                 return None
             if r is NOT_HANDLED:
                 continue
+            if r is None:
+                raise Unsupported('the model of %s returned no value (model defect)' % ncal)
             return r, ctx.st
         it = self.resolve_fn(ncal, argtypes, dtype)
         if it is None:
